@@ -28,8 +28,17 @@ inductive PwResult (α : Type)
 structure Ext where
   /-- decoder for a supported method applied to the whole (already decrypted) compressed stream:
   `ok` = bytes produced before a clean EOF, `err` = the decoder's I/O error (bytes produced before it
-  are not observable through `read_to_end`). -/
+  are not observable through `read_to_end`; a consumer that reads less than everything does see them:
+  `decodeBefore`). -/
   decode : Method → Bytes → Out Bytes
+  /-- the bytes a decoder hands out BEFORE it reports the error `decode` summarises, to a consumer that asks
+  for `k` bytes in total (buffers of `min (k − got) 65536`, asking again until it has them, end-of-file or
+  an error) and then stops.  Only read when `decode` is an error (a damaged stream), and only by the
+  partial-consumption model `consumeK`: flate2 / bzip2 / zstd deliver what precedes the damage and notice
+  the damage at a point that depends on their buffering, hence on the schedule — which is why `k` is an
+  argument (Model/Layers.lean, "Codec hypotheses that real decoders can meet").  Default: nothing comes out
+  before the error (true of a decoder that fails on its first call). -/
+  decodeBefore : Method → Bytes → (k : Nat) → Bytes := fun _ _ _ => []
   /-- ZipCrypto: `none` = wrong password (check byte mismatch); `some pt` = decrypted stream after the
   12-byte header; `err` = the entry is shorter than its header. -/
   zipCrypto : (pw : Bytes) → (check : UInt8) → (raw : Bytes) → Out (Option Bytes)
@@ -403,35 +412,102 @@ end ZipVerif.Model
 namespace ZipVerif.Model
 open ZipVerif
 
+/-! ### Partial consumption and the drop-time drain
+
+`read_zipfile_from_stream` hands out a `ZipFile` whose reader is `Crc32Reader(decoder(Take(stream,
+compressed_size)))` (read.rs: `limit_reader`, `make_crypto_reader`, `make_reader`).  The consumer's `read` calls
+go through the decoder, which pulls COMPRESSED bytes through the `Take` in its own buffer sizes and as far
+ahead as it likes; `ZipFile::drop` (read.rs, `impl Drop for ZipFile`) then takes the `Take` out of the decoders
+(`into_inner`: whatever a decoder had buffered is discarded, the `Take`'s remaining limit is what counts) and
+reads it into a 64 KiB buffer until `Ok(0)`, stopping silently on `Err`.  Both are modelled as device steps. -/
+
+/-- What the consumer of one streamed entry does before it drops the handle. -/
+structure Consume where
+  /-- decoded bytes it asks for (asking again until it has them, end-of-file, or an error) -/
+  k : Nat
+  /-- compressed bytes its reads have pulled through the `Take` when it stops — decoder read-ahead included;
+  capped at the compressed size by the `Take`.  Any value is allowed: nothing below depends on it (for a
+  Stored entry it is `min k compressed_size`). -/
+  pulled : Nat
+  /-- size of the reads on the `Take` that pull them (the decoder's buffer; the consumer's own for Stored) -/
+  chunk : Nat := 65536
+  deriving Repr, DecidableEq
+
+open M in
+/-- Reads on a `Take` with `want` bytes of its limit left, with a buffer of `chunk` bytes, until `want`
+bytes have been delivered, the device reports end-of-file (`Ok(0)`) or a read fails: the number of bytes
+delivered and the error, if any.  `Take::read` with limit 0 answers `Ok(0)` WITHOUT touching the device, so
+`want = 0` costs no I/O call; every other round is exactly one device `read` of `min want chunk` bytes.
+Fuel: every round but the last delivers at least one byte, so `want` rounds suffice (`takeLoop_fuel`). -/
+def takeLoop (chunk : Nat) : (fuel want : Nat) → M (Nat × Option ZErr)
+  | 0, _ => pure (0, none)
+  | fuel + 1, want =>
+    if want = 0 then pure (0, none) else do
+      let r ← attempt (read (min want chunk))
+      match r with
+      | .error e => pure (0, some e)
+      | .ok bs =>
+        if bs.length = 0 then pure (0, none) else do
+          let (n, e) ← takeLoop chunk fuel (want - bs.length)
+          pure (bs.length + n, e)
+
+open M in
+/-- **The drain of `ZipFile::drop`** on the innermost `Take` with `rem` bytes of its limit left:
+`loop { match reader.read(&mut [0; 1 << 16]) { Ok(0) => break, Ok(_) => (), Err(_) => break } }` — the error
+is swallowed, nothing is reported. -/
+def drain (rem : Nat) : M Unit := do
+  let _ ← takeLoop 65536 rem rem
+  pure ()
+
 /-- What a consumer sees that reads `k` bytes of a streamed entry (asking again until it has `k` bytes or
 hits end-of-file or an error) and then drops the handle: the first `k` decoded bytes if there are that
 many — the checksum is only compared by the read that reports end-of-file —, else everything followed by
-the CRC verdict.  Dropping drains the rest of the compressed bytes from the `Take`, bypassing decoders,
-so the device always ends up behind the entry's data (`takeAll` below), whatever `k` is. -/
-def consumeK (declared : UInt32) (decoded : Out Bytes) (k : Nat) : Out Bytes :=
+the CRC verdict.  On a damaged stream (`decoded` is the decoder's error) the consumer still receives the
+bytes the decoder hands out before it notices (`before = Ext.decodeBefore method raw k`): `k` of them if
+there are that many, else the error. -/
+def consumeK (declared : UInt32) (decoded : Out Bytes) (before : Bytes) (k : Nat) : Out Bytes :=
   match decoded with
   | .ok d => if k ≤ d.length then .ok (d.take k) else crcCheck false declared d
-  | .err e => .err e
+  | .err e => if k ≤ before.length then .ok (before.take k) else .err e
   | .panic s => .panic s
 
+/-- `consumeK` on the compressed stream `raw` of an entry -/
+def Ext.consume (ext : Ext) (f : FileData) (raw : Bytes) (k : Nat) : Out Bytes :=
+  consumeK f.crc32 (ext.decode f.method raw) (ext.decodeBefore f.method raw k) k
+
 open M in
-def streamEntryC (ext : Ext) (k : Nat) : M (Option (FileData × Out Bytes)) := do
+/-- One streamed entry under a consumer `c`: the header; the consumer's reads pull `min c.pulled
+compressed_size` compressed bytes through the `Take` (an I/O error among them is what the consumer gets);
+dropping the handle drains what is left of the `Take`.  The decoder is a function of the compressed stream
+the `Take` delimits (`raw`, looked at without moving the device); how much of it has been pulled when the
+consumer stops does not change what the consumer has seen. -/
+def streamEntryC (ext : Ext) (c : Consume) : M (Option (FileData × Out Bytes)) := do
   let h ← streamHeader
   match h with
   | none => pure none
   | some f => do
-    let raw ← takeAll f.compressedSize.toNat
-    pure (some (f, consumeK f.crc32 (ext.decode f.method raw) k))
+    let csize := f.compressedSize.toNat
+    let d ← getDev
+    let raw := (d.buf.drop d.pos).take csize
+    let p := min c.pulled csize
+    let (n, e) ← takeLoop c.chunk p p
+    drain (csize - n)
+    match e with
+    | some e => pure (some (f, .err e))
+    | none => pure (some (f, ext.consume f raw c.k))
+
+/-- the `i`-th consumer of a cycled pattern (nothing consumed for the empty pattern) -/
+def Consume.at (pattern : List Consume) (i : Nat) : Consume :=
+  match pattern[i % pattern.length]? with
+  | some c => c
+  | none => { k := 0, pulled := 0 }
 
 open M in
 /-- The streamed entries under a per-entry consumption pattern (cycled). -/
-def streamEntriesC (ext : Ext) (pattern : List Nat) : (fuel : Nat) → (i : Nat) → M (List (FileData × Out Bytes))
+def streamEntriesC (ext : Ext) (pattern : List Consume) : (fuel : Nat) → (i : Nat) → M (List (FileData × Out Bytes))
   | 0, _ => pure []
   | fuel + 1, i => do
-    let k := match pattern[i % pattern.length]? with
-      | some k => k
-      | none => 0
-    let e ← streamEntryC ext k
+    let e ← streamEntryC ext (Consume.at pattern i)
     match e with
     | none => pure []
     | some x => do
